@@ -314,6 +314,23 @@ def merge_cases_bad_timing_payload():
                                                                     'bad': bname, 'where': where}}
 
 
+PADDED_STORY_IDS = ['A ', ' B', 'C\u00a0']        # IDs are opaque strings: leading / trailing blanks belong to them
+PADDED_ITEM_IDS = ['i1  ', ' i2']
+
+
+def merge_cases_padded():
+    """story- and item-level messages over running orders whose IDs carry leading / trailing white space; a reference
+    must match the ID exactly (the references used are the padded IDs themselves, the trimmed ones are unknown)"""
+    sids = PADDED_STORY_IDS[:2]
+    ro = to_text(make_ro(sids, layout='plain', items={s: PADDED_ITEM_IDS for s in sids}))
+    for cls, doc, meta in story_level_messages(sids, max_src=2, full_refs=False):
+        yield {'ro': ro, 'msg': to_text(doc), 'meta': dict(meta, cls=cls, n=2, layout='padded-ids')}
+    for cls, doc, meta in story_level_messages(['A', 'B'], max_src=1, full_refs=False):      # the trimmed IDs: unknown here
+        yield {'ro': ro, 'msg': to_text(doc), 'meta': dict(meta, cls=cls, n=2, layout='padded-ids-trimmed-refs')}
+    for cls, doc, meta in item_level_messages([sids[1], 'B'], PADDED_ITEM_IDS, max_src=2):
+        yield {'ro': ro, 'msg': to_text(doc), 'meta': dict(meta, cls=cls, n=2, para='padded-ids')}
+
+
 def merge_cases_other():
     for n in (0, 2):
         for layout in ('plain', 'trailing'):
